@@ -60,6 +60,17 @@ LongPeerVector(grp, k) ==
        st([i \in 1..Len(P(grp)) |-> IF i = Len(P(grp)) THEN P(grp)[i] - 255 + y[1] ELSE P(grp)[i]] \o << >>, FALSE),   \* p - 255 + y: another residue, no expectation beyond no error
        st(<< 1 >> \o Zeros(Len(P(grp)) - 1) \o << 0 >>, FALSE) >>)  \* 2^(8n): only the excess octet is non-zero
 
+\* the group as it is reached through a negotiated proposal (transform type 4, id 2 / 14 -> NewIKESAKey): the responder's public value
+\* has the group's length and its keys are those of the shared secret computed with the group's prime
+PropGroupVector(grp, k) ==
+  LET su == Suite(<< 128, 192, 256 >>[(k % 3) + 1], "sha1", << "md5", "sha1", "sha256" >>[(k % 3) + 1])
+      nonce == FillT("seeded", 40, Seed + 70 + k)
+      pubQ == RefT(1, "pub", DhLen(grp)) IN
+  VectorD("dh_proposal", IkeKeyDefsP("Q", su, nonce, SharedT(grp, ExpClass(grp, 6), pubQ), Lit(D(8, 1)), Lit(D(8, 2))),
+    << [NewIkeSaStepP("Q", "C09", "Q", su, grp, PubT(grp, ExpClass(grp, 6)), nonce, D(8, 1), D(8, 2), [mode |-> "det", seed |-> Seed + k])
+          EXCEPT !.expect = @ @@ [publen |-> DhLen(grp)]],
+       Step("dh_shared", "C09", FALSE, [grp |-> grp, x |-> ExpClass(grp, 6), peer |-> Ref(1, "pub")], [panic |-> FALSE, shared |-> SharedT(grp, ExpClass(grp, 6), pubQ)]) >>)
+
 RandVector(k) ==
   VectorD("rand", << >>,
     IF k = 0 THEN
@@ -103,8 +114,9 @@ Init == stage = 0 /\ g = 0 /\ xi = 0 /\ yi = 0
 Next == \/ stage = 0 /\ stage' = 1 /\ g' \in {2, 14} /\ xi' \in 1..NExp /\ yi' = 0
         \/ stage = 0 /\ stage' = 2 /\ g' = 0 /\ xi' \in 0..31 /\ yi' = 0
         \/ stage = 0 /\ stage' = 2 /\ g' \in {2, 14} /\ xi' \in 100..103 /\ yi' = 0
+        \/ stage = 0 /\ stage' = 2 /\ g' \in {2, 14} /\ xi' \in 200..202 /\ yi' = 0
         \/ stage = 1 /\ stage' = 2 /\ yi' \in 1..NPeer /\ UNCHANGED << g, xi >>
         \/ stage = 2 /\ UNCHANGED << stage, g, xi, yi >>
-Emit == stage = 2 => PrintT(ToJson(IF g = 0 THEN RandVector(xi) ELSE IF xi >= 100 THEN LongPeerVector(g, xi - 100) ELSE PairVector(g, xi, yi)))
+Emit == stage = 2 => PrintT(ToJson(IF g = 0 THEN RandVector(xi) ELSE IF xi >= 200 THEN PropGroupVector(g, xi - 200) ELSE IF xi >= 100 THEN LongPeerVector(g, xi - 100) ELSE PairVector(g, xi, yi)))
 Sound == TRUE
 =============================================================================
